@@ -176,13 +176,25 @@ def lib_records(lib, traces, obs, names_ref, layout_ref):
     return out, meta
 
 
-def validate_lib(ctx, lib, recs):
-    data = {"lib": L.tla_lib(lib), "traces": recs}
-    tups = core.tlc_verdicts(ctx, "Trace_CallLib", data, name="Trace_CallLib", extra_env=R.LIGHT_JVM)
-    r_out = ctx.cov["tlc_runs"][-1]
+def validate_lib(ctx, lib, recs, chunk=120):
+    """Trace_CallLib on chunks of traces (its cost per step grows with the size of the file), in parallel."""
+    chunks = [recs[i:i + chunk] for i in range(0, len(recs), chunk)] or [[]]
+    base = len(ctx.cov["tlc_runs"])
+
+    def one(i):
+        path = os.path.join(ctx.tmp, "Trace_CallLib_%d_%d.json" % (base, i))
+        core.write_json(path, {"lib": L.tla_lib(lib), "traces": chunks[i]})
+        return core.tlc("Trace_CallLib", workers=1, env=dict(R.LIGHT_JVM, TRACE_FILE=path), timeout=1500)
+    with ThreadPoolExecutor(max_workers=4) as ex:
+        results = list(ex.map(one, range(len(chunks))))
     bad = {}
-    for t in tups:
-        bad[int(t[0])] = (int(t[1]), core.unq(t[2]))
+    for i, r in enumerate(results):
+        ctx.add_tlc("Trace_CallLib[%d]" % i, r, count_states=False)
+        checked = core.tla_tuples(r.out, "CHECKED")
+        if not checked or int(checked[0][0]) != len(chunks[i]):
+            raise core.MachineryError("Trace_CallLib did not check every trace:\n" + r.out[-3000:])
+        for t in core.tla_tuples(r.out, "VERDICT"):
+            bad[int(t[0])] = (int(t[1]), core.unq(t[2]))
     return bad
 
 
